@@ -23,6 +23,7 @@ type fakeLimiter2 struct {
 	log    *Logger
 	cap    atomic.Uint32
 	maxcap atomic.Uint32
+	busy   int64 // GiveMe takes this long (ns)
 }
 
 func (f *fakeLimiter2) MaxCapacity() uint32 { return f.maxcap.Load() }
@@ -31,7 +32,12 @@ func (f *fakeLimiter2) Capacity() uint32 {
 	f.log.Logf("L", "capread %d", v)
 	return v
 }
-func (f *fakeLimiter2) GiveMe(v uint32)                 { f.log.Logf("L", "giveme %d", v) }
+func (f *fakeLimiter2) GiveMe(v uint32) {
+	f.log.Logf("L", "giveme %d", v)
+	if f.busy > 0 {
+		time.Sleep(time.Duration(f.busy))
+	}
+}
 func (f *fakeLimiter2) Start(ctx context.Context) error { return nil }
 
 // ----- operation whose cost changes once it has been handed to its watcher -----
@@ -315,7 +321,7 @@ func RunBatcherV2(t *testing.T, sc *Scenario, out io.Writer) {
 		sc.WriteHeader(lg.w)
 		r := &v2run{sc: sc, log: lg, objs: map[int64]b2.Operation{}}
 		r.ctx, r.cancel = context.WithCancel(context.Background())
-		r.lim = &fakeLimiter2{log: lg}
+		r.lim = &fakeLimiter2{log: lg, busy: sc.BusyCap}
 		for i, wc := range sc.Watchers {
 			r.ws = append(r.ws, r.makeWatcher(i, wc))
 		}
